@@ -1,6 +1,6 @@
 // C17 harness: path post-processing (PathSimplifier, PathGeometric densification, PathHybridization).
 //
-// The two translation units under test, src/ompl/geometric/src/PathSimplifier.cpp and PathGeometric.cpp, are
+// The translation units under test, src/ompl/geometric/src/PathSimplifier.cpp, PathGeometric.cpp and PathHybridization.cpp, are
 // compiled INTO this harness (from the tree under test, -I<repo>/src) so that they are instrumented by
 // ASan/UBSan (and, in the `pathops_chk` build, by -D_GLIBCXX_ASSERTIONS = bounds-checked operator[]); the
 // executable's definitions interpose the ones in libompl.so.  No hook in /repo: `private` is opened for this
@@ -76,6 +76,7 @@ namespace vp
 #include "ompl/geometric/src/PathSimplifier.cpp"
 #undef rng_
 #include "ompl/geometric/src/PathGeometric.cpp"
+#include "ompl/geometric/src/PathHybridization.cpp"
 
 namespace og = ompl::geometric;
 namespace ob = ompl::base;
@@ -167,6 +168,31 @@ private:
     std::shared_ptr<SampleScript> sc_;
 };
 
+// strongly non-uniform cost fields (NOT proportional to length along a segment): `toll` = a vertical corridor 3 < x < 4.5
+// costing 25 (1 elsewhere) plus a horizontal band 6 < y < 7 costing 12; `step` = 1 for x < 5, 12 for x >= 5; `checker` = 1 or 9 by
+// the parity of floor(x) + floor(y).  `interp` switches on the objective's own motion-cost interpolation.
+class TollObjective : public ob::StateCostIntegralObjective
+{
+public:
+    TollObjective(const ob::SpaceInformationPtr &si, int kind, bool interp) : ob::StateCostIntegralObjective(si, interp), kind_(kind)
+    {
+    }
+    ob::Cost stateCost(const ob::State *s) const override
+    {
+        std::vector<double> r;
+        si_->getStateSpace()->copyToReals(r, s);
+        double x = r[0], y = r.size() > 1 ? r[1] : 0.0;
+        if (kind_ == 0)
+            return ob::Cost(1.0 + ((x > 3.0 && x < 4.5) ? 24.0 : 0.0) + ((y > 6.0 && y < 7.0) ? 11.0 : 0.0));
+        if (kind_ == 1)
+            return ob::Cost(x < 5.0 ? 1.0 : 12.0);
+        return ob::Cost((((long)std::floor(x) + (long)std::floor(y)) & 1) ? 9.0 : 1.0);
+    }
+
+private:
+    int kind_;
+};
+
 struct Ctx
 {
     ob::StateSpacePtr space;
@@ -186,6 +212,12 @@ static ob::OptimizationObjectivePtr makeObj(const Ctx &c, const std::string &o)
         return std::make_shared<ob::MaximizeMinClearanceObjective>(c.si);
     if (o == "integral")
         return std::make_shared<FieldObjective>(c.si);
+    if (o == "toll" || o == "tolli")
+        return std::make_shared<TollObjective>(c.si, 0, o == "tolli");
+    if (o == "step" || o == "stepi")
+        return std::make_shared<TollObjective>(c.si, 1, o == "stepi");
+    if (o == "checker")
+        return std::make_shared<TollObjective>(c.si, 2, false);
     throw vp::ParseError("objective " + o);
 }
 
@@ -316,6 +348,69 @@ int main()
                 fillPath(c, c.path, p);
                 c.mv->rec = false;
                 std::cout << "ok chk=" << (p.check() ? 1 : 0) << "\n";
+                continue;
+            }
+            if (op == "hybridseq")
+            {
+                // hybridseq <obj> <nsteps> ( rec <gaps> <n> <state>*n | comp | clear )*nsteps
+                // answers: `seq` then per step ` | rec <attempts> cost <c>` / ` | comp <none | out k states hcost c chk b>` / ` | clear`,
+                // then ` cm …`
+                if (t.size() < 3)
+                    throw vp::ParseError("hybridseq");
+                auto obj = makeObj(c, t[1]);
+                auto ns = vp::parseNat(t[2]);
+                if (!ns)
+                    throw vp::ParseError("nsteps");
+                og::PathHybridization ph(c.si, obj);
+                std::vector<og::PathGeometricPtr> keep;
+                size_t i = 3;
+                c.mv->log.clear();
+                std::string s = "seq";
+                for (unsigned long long k = 0; k < *ns; ++k)
+                {
+                    if (i >= t.size())
+                        throw vp::ParseError("step");
+                    if (t[i] == "rec")
+                    {
+                        if (i + 1 >= t.size())
+                            throw vp::ParseError("rec");
+                        bool gaps = t[i + 1] == "1";
+                        i += 2;
+                        std::vector<std::vector<std::string>> sts;
+                        if (!takeStates(c, t, i, sts))
+                            throw vp::ParseError("rec path");
+                        auto p = std::make_shared<og::PathGeometric>(c.si);
+                        fillPath(c, sts, *p);
+                        keep.push_back(p);
+                        c.mv->rec = true;
+                        unsigned int na = ph.recordPath(p, gaps);
+                        c.mv->rec = false;
+                        s += " | rec " + std::to_string(na) + " cost " + vp::bits(p->cost(obj).value());
+                    }
+                    else if (t[i] == "comp")
+                    {
+                        ++i;
+                        ph.computeHybridPath();
+                        const auto &h = ph.getHybridPath();
+                        if (!h)
+                            s += " | comp none";
+                        else
+                            s += " | comp " + showPath(c, *h) + " hcost " + vp::bits(h->cost(obj).value()) + " chk " + (h->check() ? "1" : "0");
+                    }
+                    else if (t[i] == "clear")
+                    {
+                        ++i;
+                        ph.clear();
+                        keep.clear();
+                        s += " | clear";
+                    }
+                    else
+                        throw vp::ParseError("step kind");
+                }
+                if (i != t.size())
+                    throw vp::ParseError("trailing");
+                s += " | " + showCm(c);
+                std::cout << s << "\n";
                 continue;
             }
             if (op == "hybrid")
@@ -573,6 +668,8 @@ int main()
             s += " cost " + vp::bits(cost0) + " " + vp::bits(p.cost(obj).value());
             s += std::string(" chk ") + (p.check() ? "1" : "0");
             s += extra;
+            // the objective's own verdict: is the cost before better than the cost after?
+            s += std::string(" worse ") + (obj->isCostBetterThan(ob::Cost(cost0), p.cost(obj)) ? "1" : "0");
             std::cout << s << "\n";
         }
         catch (const std::exception &e)
